@@ -19,7 +19,7 @@ from props import c04 as _c04
 
 ID = 'C07'
 LEVEL = 'fault_enumeration'
-RULE = ('Valid documents of every selectable map, envelope skeletons and raw strings, hit by 1..4 faults from a 26-kind '
+RULE = ('Valid documents of every selectable map, envelope skeletons and raw strings, hit by 1..4 faults from a 29-kind '
         'structural catalogue (delete/duplicate/swap/move/retag segment, truncate at segment or character, orphan trailers, '
         'nested headers, non-numeric/missing counts, extra elements/components, empty and blank-only segments, doubled '
         'terminators, over-long segments, byte flips, delimiters dropped into data, damaged ISA) plus the 24 envelope faults of '
@@ -42,7 +42,7 @@ COMPONENTS = {
 }
 STRUCT = ['seg_delete', 'seg_dup', 'seg_swap', 'seg_move', 'retag', 'retag_env', 'trunc_seg', 'trunc_char', 'extra_ele', 'extra_comp',
           'empty_seg', 'blank_seg', 'double_term', 'long_seg', 'byte_flip', 'delim_in_data', 'isa_damage', 'isa_version',
-          'drop_all_ele', 'env_short', 'env_short', 'odd_value', 'odd_value', 'gs_unknown_map', 'lowercase_id', 'inner_isa_short', 'bht_tspc', 'leading_blank']
+          'drop_all_ele', 'env_short', 'env_short', 'odd_value', 'odd_value', 'char_delete', 'isa_field', 'isa_field', 'trailing_isa', 'gs_unknown_map', 'lowercase_id', 'inner_isa_short', 'bht_tspc', 'leading_blank']
 ENTRY = ['validate', 'validate', 'validate', 'reader', 'context', 'context_loop']
 
 
@@ -110,6 +110,26 @@ def mutate(rng, segs, kind):
         segs[i] = list(segs[i])
         segs[i][k] = rng.choice(['20150301-20150302-20150303', '-', '--', '.', '-.', '1e5', '2004-01-01', '00000000', '99999999-99999999',
                                  '2460', '-0', '+1', ' 1', '1 ', '\x7f', 'RD8', 'A' * 300, '1.2.3'])
+    elif kind == 'isa_field':
+        # a later ISA keeps its 16 elements (so the reader accepts it) but one fixed-width field has the wrong width
+        g = [k for k in body if segs[k][0] == 'ISA' and len(segs[k]) == 17]
+        if not g:
+            return False
+        k = rng.choice(g)
+        j = rng.choice([5, 6, 7, 8, 11, 12, 13, 15])
+        segs[k] = list(segs[k])
+        v = segs[k][j]
+        segs[k][j] = rng.choice([v[:-1], v + 'X', '', v[1:]])
+    elif kind == 'trailing_isa':
+        # a further interchange that consists of a lone ISA (input cut right after it), possibly with a wrong-width field
+        isa = list(segs[0])
+        if len(isa) != 17:
+            return False
+        isa[13] = '%09d' % rng.randint(1, 999999999)
+        if rng.random() < 0.7:
+            j = rng.choice([5, 6, 7, 8, 11, 12, 12, 15])
+            isa[j] = rng.choice([isa[j][:-1], isa[j] + 'X', isa[j][1:]])
+        segs.append(isa)
     elif kind == 'env_short':
         g = [k for k in body if segs[k][0] in ('ST', 'GS', 'SE', 'GE', 'IEA') and len(segs[k]) > 1]
         if not g:
@@ -173,6 +193,18 @@ def text_mutate(rng, text, kind):
         k = rng.randint(0, n - 1)
         c = chr((ord(text[k]) ^ (1 << rng.randint(0, 6))) & 0x7f)
         return text[:k] + c + text[k + 1:], c != text[k]
+    if kind == 'char_delete':
+        k = rng.randint(106, n - 1)
+        if rng.random() < 0.5:
+            # prefer a later ISA segment: its fields are fixed width but only the element count is checked by the reader
+            j = text.find(text[105] + 'ISA' + text[3], 106)
+            j2 = text.find('\nISA' + text[3], 106)
+            j = j if j >= 0 else j2
+            if j >= 0:
+                k = rng.randint(j + 5, min(n - 1, j + 105))
+        if text[k] in (text[3], text[105]):
+            return text, False
+        return text[:k] + text[k + 1:], True
     if kind == 'delim_in_data':
         k = rng.randint(106, n - 1)
         return text[:k] + rng.choice([text[3], text[104], text[105], '^']) + text[k:], True
@@ -231,7 +263,7 @@ def generate(rng, tier, run, seed=0):
                     pass
                 continue
             k = rng.choice(STRUCT)
-            if k in ('trunc_char', 'trunc_seg', 'byte_flip', 'delim_in_data', 'isa_damage', 'isa_version'):
+            if k in ('trunc_char', 'trunc_seg', 'byte_flip', 'delim_in_data', 'isa_damage', 'isa_version', 'char_delete'):
                 text_kinds.append(k)
             elif mutate(rng, segs, k):
                 fired.append(k)
